@@ -603,9 +603,188 @@ pub fn c02(ctx: &Ctx) -> ! {
 }
 
 
+pub fn profile_library() -> Profile {
+    let mut p = Profile::base("library");
+    p.library_types = true;
+    p.max_types = 4;
+    p.enums = 25;
+    p.inline = 0;
+    p.flatten = 0;
+    p.docs = 0;
+    p.rename = 4;
+    p.rename_all = 8;
+    p.optional = 5;
+    p.skip = 2;
+    p.generics = 15;
+    p.unusual_idents = 5;
+    p.user_refs = 40;
+    p.external_only = true;
+    p.unit_enum_bias = 60;
+    p.enums = 35;
+    p.known_wrappers = std::env::var("VERIF_KNOWN_WRAPPERS").is_ok();
+    p
+}
+
+fn lib_names(t: &typegen::TyExpr, out: &mut BTreeSet<String>) {
+    use typegen::TyExpr::*;
+    match t {
+        Lib(n, args) => {
+            out.insert(n.to_string());
+            args.iter().for_each(|a| lib_names(a, out));
+        }
+        User(_, args) => args.iter().for_each(|a| lib_names(a, out)),
+        Option(x) | Vec(x) | Array(x, _) | Wrap(_, x) => lib_names(x, out),
+        Tuple(xs) => xs.iter().for_each(|a| lib_names(a, out)),
+        Map(k, v, _) => {
+            lib_names(k, out);
+            lib_names(v, out);
+        }
+        _ => (),
+    }
+}
+
+/// C12: library types as fields of generated wrappers: values inhabit the reported type (C01's
+/// oracle), witnesses of the reported type deserialise (C02's oracle, where no leaf parses its
+/// string), dependencies are exactly the user types among the type arguments.
+pub fn c12_module(p: &Placed, server: &mut Server, nvalues: usize, seed: u64) -> ModResult {
+    let mut libs = BTreeSet::new();
+    for td in &p.module.types {
+        for f in td.all_fields() {
+            lib_names(&f.ty, &mut libs);
+        }
+    }
+    let known_sig = if libs.contains("std::marker::PhantomData") {
+        Some("phantomdata-declared-as-its-parameter")
+    } else if libs.contains("std::sync::Weak") {
+        Some("weak-declared-as-its-content")
+    } else {
+        None
+    };
+    let mut r = c01_module(p, server, nvalues, seed);
+    if let Some(sig) = known_sig {
+        for f in r.failures.iter_mut() {
+            if f["signature"] == "value-not-in-type" {
+                f["signature"] = json!(sig);
+            }
+        }
+    }
+    r.labels.retain(|l| l.starts_with("lib:") || l == "tuple_type" || l == "map" || l == "nesting_depth>=2");
+    if !r.failures.is_empty() {
+        return r;
+    }
+    let parses_strings = libs.iter().any(|n| n.contains("net::") || n.contains("PathBuf"));
+    if !parses_strings && known_sig.is_none() {
+        let r2 = c02_module(p, server, 32, 16, seed);
+        r.evaluations += r2.evaluations;
+        r.failures.extend(r2.failures);
+        r.extra.extend(r2.extra);
+    } else {
+        r.extra.push(("modules_without_deserialisation_check(string-parsing leaf)".into(), 1));
+    }
+    // dependencies == names used by the declaration
+    if let Ok(v) = view(p, server) {
+        for (t, info) in v.infos.iter().enumerate() {
+            let label = render::render_ty(&p.module.insts[t], &p.module);
+            // the concrete declaration: it mentions the type arguments of an instantiation as well
+            if let (Some(decl), Some(deps)) = (okstr(info, "decl_concrete"), info["dependencies"].as_array()) {
+                if let Some(d) = tsmodel::parse_module(decl).ok().and_then(|m| m.decls.into_iter().next()) {
+                    let dep_names: BTreeSet<String> = deps.iter().filter_map(|x| x["ts_name"].as_str().map(|s| s.to_string())).collect();
+                    let mut free = tsmodel::free_type_names(&d);
+                    // + what the generic declaration itself mentions (defaults of type parameters)
+                    if let Some(g) = okstr(info, "decl").and_then(|s| tsmodel::parse_module(s).ok()).and_then(|m| m.decls.into_iter().next()) {
+                        free.extend(tsmodel::free_type_names(&g));
+                    }
+                    free.remove(&d.name);
+                    let mut dn = dep_names.clone();
+                    dn.remove(&d.name);
+                    r.evaluations += 1;
+                    if free != dn {
+                        r.failures.push(json!({"signature": "dependencies-differ-from-type-arguments", "message": format!("`{label}`: decl_concrete() = {decl} mentions the user types {:?}, dependencies() reports {:?}", free, dn), "case": case_of(p, json!({"type": label}))}));
+                    }
+                }
+            }
+        }
+    }
+    // non-trivial: a library type at depth >= 2 or a wrapper
+    if !libs.is_empty() {
+        r.nontrivial_hashes = vec![fnv(&render::render_module(&p.module))];
+    } else {
+        r.nontrivial_hashes.clear();
+    }
+    r
+}
+
+pub fn c12(ctx: &Ctx) -> ! {
+    lock_subjects(ctx);
+    let known = load_known(ctx, "C12");
+    let mut out = Outcome::default();
+    out.rule = "type expressions over the supported std library types (NonZero*, PathBuf, network addresses, Option, Result, Vec, Box<[T]>, Box<str>, Cow<str>, arrays 0..=32, tuples of arity 1..=10, HashSet/BTreeSet, HashMap/BTreeMap with string/integer/char/bool/unit-enum keys, Range/RangeInclusive, Box/Rc/Arc/RefCell/Mutex/RwLock) composed to depth <=3 and placed as fields of generated structs/enums; >=64 values per type. Oracle: serde_json output is a member of the reported type (name()/inline()/decl_concrete()); where no leaf parses its string, witnesses of the reported type deserialise (C02's oracle); names of dependencies() == user types mentioned by decl(). Array lengths 33..=65 are checked by name shape only (serde has no impls). Non-trivial: module contains a library type; distinct by module text".into();
+    out.assumptions = vec!["feature-gated third-party crates are not part of the quick tier".into(), "PhantomData<T> and Weak<T> are listed known findings and excluded from the search".into()];
+    regression(ctx, "C12", &known, &mut out);
+    array_shapes(ctx, &mut out, &known);
+    let rounds = if ctx.thorough() { 6 } else { 1 };
+    let mut distinct = HashSet::new();
+    for round in 0..rounds {
+        let modules = gen_modules(ctx, &profile_library(), 16 * 10, 0xC12 + round as u64 * 7919);
+        let corpus = build(ctx, modules, &subjects::SlotCfg::default());
+        out.bump("modules", corpus.modules.len() as u64);
+        out.bump("types", corpus.modules.iter().map(|m| m.module.insts.len() as u64).sum());
+        out.bump("discarded_by_rustc", corpus.discarded_by_rustc as u64);
+        if round == 0 && !corpus.discarded_samples.is_empty() {
+            out.extra.insert("discarded_by_rustc_sample".into(), json!(corpus.discarded_samples[0].chars().take(1500).collect::<String>()));
+        }
+        let seed = ctx.seed;
+        let nvalues = if ctx.thorough() { 256 } else { 64 };
+        let results = for_each_module(ctx, &corpus, |p, s, _| c12_module(p, s, nvalues, seed));
+        collect(&mut out, results, &known, &mut distinct);
+        if !out.violations.is_empty() {
+            break;
+        }
+    }
+    shrink_violations(ctx, "C12", &mut out);
+    finish(ctx, "C12", out)
+}
+
+/// arrays of every length 0..=65: a tuple of exactly N up to 64, `Array<T>` above
+fn array_shapes(ctx: &Ctx, out: &mut Outcome, known: &[Known]) {
+    let mut m = typegen::gen_module(&[3, 3, 3], &Profile::base("arrays"), "m000");
+    m.types.truncate(1);
+    m.types[0].params.clear();
+    m.types[0].attrs = Default::default();
+    m.types[0].body = typegen::Body::Named(vec![typegen::Field { ident: Some("a".into()), ..Default::default() }]);
+    m.insts = vec![typegen::TyExpr::User(0, vec![])];
+    let id = m.types[0].ident.clone();
+    m.serde = false;
+    m.extra_roots = (0..=65).flat_map(|n| vec![format!("[u8; {n}]"), format!("[Option<{id}>; {n}]")]).collect();
+    let corpus = build(ctx, vec![m], &subjects::SlotCfg::default());
+    let results = for_each_module(ctx, &corpus, |p, s, _| {
+        let mut r = ModResult::default();
+        for (k, root) in p.module.extra_roots.iter().enumerate() {
+            let n = k / 2;
+            r.evaluations += 1;
+            let Ok(info) = s.request(&json!({"cmd": "info", "m": p.index, "t": p.module.insts.len() + k})) else { continue };
+            for which in ["name", "inline"] {
+                let text = okstr(&info, which).unwrap_or("");
+                let ok = match tsmodel::parse_type(text) {
+                    Ok(tsmodel::Ty::Tuple(ts)) => n <= 64 && ts.len() == n,
+                    Ok(tsmodel::Ty::Array(_)) => n > 64,
+                    _ => false,
+                };
+                if !ok {
+                    r.failures.push(json!({"signature": "array-shape", "message": format!("{which}() of `{root}` is {text:?}: expected a tuple of exactly {n} elements up to length 64 and Array<T> above"), "case": case_of(p, json!({"type": root}))}));
+                }
+            }
+        }
+        r
+    });
+    let mut distinct = HashSet::new();
+    collect(out, results, known, &mut distinct);
+}
+
 pub fn module_check(property: &str, p: &Placed, server: &mut Server, cwd: &std::path::Path, ctx: &Ctx) -> ModResult {
     let thorough = ctx.thorough();
     match property {
+        "C12" => c12_module(p, server, if thorough { 256 } else { 64 }, ctx.seed),
         "C03" | "C04" | "C11" => crate::e2x::export_module(p, server, cwd, property, ctx.seed, false),
         "C01" => c01_module(p, server, if thorough { 256 } else { 64 }, ctx.seed),
         "C02" => c02_module(p, server, 48, if thorough { 96 } else { 32 }, ctx.seed),
@@ -660,6 +839,7 @@ fn remap_ty(t: &mut typegen::TyExpr, map: &std::collections::HashMap<usize, usiz
         Option(x) | Vec(x) | Array(x, _) | Wrap(_, x) => remap_ty(x, map),
         Tuple(xs) => xs.iter_mut().all(|a| remap_ty(a, map)),
         Map(k, v, _) => remap_ty(k, map) && remap_ty(v, map),
+        Lib(_, args) => args.iter_mut().all(|a| remap_ty(a, map)),
         _ => true,
     }
 }
@@ -677,6 +857,7 @@ fn refs_of(t: &typegen::TyExpr, out: &mut BTreeSet<usize>) {
             refs_of(k, out);
             refs_of(v, out);
         }
+        Lib(_, args) => args.iter().for_each(|a| refs_of(a, out)),
         _ => (),
     }
 }
